@@ -1340,7 +1340,9 @@ class Converter:
 
         for pv in loop_state_vars:
             onnx_var = self._py_var_to_onnx_var(pv, self._source_of(loop_stmt))
-            if onnx_var.name not in self._current_fn.assigned_names:
+            if onnx_var.name not in self._current_fn.assigned_names or any(
+                onnx_var is o for o in self._current_fn.outputs
+            ):
                 # When converting the loop-body into a graph, we need to handle
                 # identity assignments of the form "x = y" inside the loop body
                 # specially if y represents a value computed outside the loop body.
@@ -1385,12 +1387,16 @@ class Converter:
             if python_var in self._current_scope():
                 python_var_value = self._current_scope()[python_var]
                 output = self._to_onnx_var(python_var_value, python_var)
-                if output.name not in self._current_fn.assigned_names:
+                if output.name not in self._current_fn.assigned_names or any(
+                    output is o for o in self._current_fn.outputs
+                ):
                     # TODO (Rama): Unclear how this can happen. If python_var is in current_scope,
                     # then it should have been assigned a value in the current graph.
                     #
                     # To return an outer-scope variable, an ONNX Graph has to
                     # use an explicit copy via Identity.
+                    # The same holds when two variables are bound to one value ("k = x"):
+                    # graph outputs must be distinct.
                     output = self._emit_copy(output, python_var)
                 self._current_fn.outputs.append(output)
             else:
